@@ -418,6 +418,45 @@ fn body(sc: Sc) -> vsched::Body {
                     }
                 }
             }
+            // ---- monitors that come or go while a member exits: the recipients of the exit-leave are the
+            // monitors at the moment the member is taken out. A task that has SEEN the member gone (through
+            // get_members) and then removes a monitor does not take the Leave away from it; one that then
+            // installs a monitor does not earn it a Leave.
+            let racing = &recs[sc.setup.len().min(recs.len())..];
+            let mut pairs: BTreeSet<(&'static str, usize)> = BTreeSet::new();
+            for r in racing {
+                match &r.op {
+                    Op::Monitor(g, w) | Op::Demonitor(g, w) => {
+                        pairs.insert((*g, *w));
+                    }
+                    _ => {}
+                }
+            }
+            for (g, mi) in pairs {
+                let in_setup = sc.setup.iter().any(|o| matches!(o, Op::Monitor(g2, w) if *g2 == g && *w == mi));
+                let mons: Vec<&Rec> = racing.iter().filter(|r| matches!(&r.op, Op::Monitor(g2, w) if *g2 == g && *w == mi)).collect();
+                let demons: Vec<&Rec> = racing.iter().filter(|r| matches!(&r.op, Op::Demonitor(g2, w) if *g2 == g && *w == mi)).collect();
+                if recs.iter().any(|r| matches!(&r.op, Op::Exit(w) if *w == mi)) {
+                    continue;
+                }
+                for x in recs.iter().filter(|r| matches!(r.op, Op::Exit(_))) {
+                    let Op::Exit(i) = x.op else { continue };
+                    let a = id(i);
+                    let pre_member = sc.setup.iter().any(|o| matches!(o, Op::Join(s2, g2, w) if *s2 == DS && *g2 == g && w.contains(&i)));
+                    let other_ops = racing.iter().any(|r| matches!(&r.op, Op::Join(s2, g2, w) | Op::Leave(s2, g2, w) if *s2 == DS && *g2 == g && w.contains(&i)));
+                    if !pre_member || other_ops {
+                        continue;
+                    }
+                    let gone_seen_before = |t: u64| recs.iter().any(|q| matches!(&q.op, Op::Members(s2, g2) if *s2 == DS && *g2 == g) && !q.members.contains(&a) && q.ret < t);
+                    let leaves_seen = events[mi].iter().filter(|e| matches!(e, Evt::Leave(s2, g2, who) if s2 == DS && g2 == g && who.contains(&a))).count();
+                    if in_setup && mons.is_empty() && demons.len() == 1 && gone_seen_before(demons[0].call) && leaves_seen != 1 {
+                        bad.push(format!("{} monitored {g} when {a} exited (its demonitor began after {a} had been seen gone) but received {leaves_seen} Leave events for it; events {:?}", id(mi), events[mi]));
+                    }
+                    if !in_setup && demons.is_empty() && mons.len() == 1 && gone_seen_before(mons[0].call) && leaves_seen != 0 {
+                        bad.push(format!("{} began to monitor {g} only after {a} had been seen gone from it, yet received a Leave for {a}; events {:?}", id(mi), events[mi]));
+                    }
+                }
+            }
             // ---- clean up for the next execution
             let key = format!(
                 "groups={:?} events={:?}",
@@ -501,6 +540,17 @@ fn scenarios() -> Vec<(Sc, Option<usize>, usize)> {
         ),
         (
             Sc { name: "leave-vs-join-other-group-then-exit", n_cells: 5, setup: vec![Op::Join(DS, "h", vec![a]), Op::Monitor("g", m)], threads: vec![vec![Op::Leave(DS, "h", vec![a])], vec![Op::Join(DS, "g", vec![a])]], strangers: vec![n, b], after: vec![Op::Exit(a), Op::Listing] },
+            None,
+            8,
+        ),
+        // a member of two groups exits; another task watches it disappear and then removes / installs monitors
+        (
+            Sc { name: "exit-from-two-groups-vs-seen-gone-then-demonitor", n_cells: 5, setup: vec![Op::Join(DS, "g", vec![a]), Op::Join(DS, "h", vec![a]), Op::Monitor("g", m), Op::Monitor("h", m)], threads: vec![vec![Op::Exit(a)], vec![Op::Members(DS, "g"), Op::Demonitor("g", m), Op::Members(DS, "h"), Op::Demonitor("h", m)]], strangers: vec![n, b], after: vec![] },
+            None,
+            8,
+        ),
+        (
+            Sc { name: "exit-from-two-groups-vs-seen-gone-then-monitor", n_cells: 5, setup: vec![Op::Join(DS, "g", vec![a]), Op::Join(DS, "h", vec![a])], threads: vec![vec![Op::Exit(a)], vec![Op::Members(DS, "g"), Op::Monitor("g", m), Op::Members(DS, "h"), Op::Monitor("h", mw)]], strangers: vec![n, b], after: vec![] },
             None,
             8,
         ),
